@@ -81,9 +81,9 @@ def make_job(rng, model, scale, family, jid):
         frames.insert(rng.randrange(len(frames) + 1), dict(video=0, hw=[h, w], instances=[[None] * n_nodes]))
     user_only = True
     if family == "with_predicted_instances":      # predicted instances next to the user-labelled ones, with either filter setting
-        user_only = rng.choice([True, False])
-        for f in frames:
-            if rng.random() < 0.7 and model != "single_instance":
+        user_only = rng.choice([True, False]) if jid % 2 else False    # at least every second job of the family keeps the predictions
+        for fi, f in enumerate(frames):
+            if (fi == 0 or rng.random() < 0.7) and model != "single_instance":
                 h, w = f["hw"]
                 f["predicted"] = [_rand_instance(rng, h, w, n_nodes) for _ in range(rng.choice([1, 2]))]
         if model == "single_instance":            # a prediction for the one animal; only meaningful with the user filter on
